@@ -47,7 +47,8 @@ def v6Tail (segs : List Nat) : Dec PeerAddr := fun r =>
 
 theorem decPeerAddr_eq (rd : Rdr) : decPeerAddr rd = fun bs =>
     bind (rU8 bs) fun tag r =>
-      if tag = 0 then bind (rFixed rd 4 r) v4Tail else bind (readN rU16 8 r) v6Tail := rfl
+      if tag = 0 then bind (rFixed rd 4 r) v4Tail
+      else if tag = 1 then bind (readN rU16 8 r) v6Tail else .err .corrupted 0 := rfl
 
 theorem bnd_v4Tail (ip : Bytes) : Bnd 1 0 0 (v4Tail ip) :=
   Bnd.bind (bnd_rU16 1) fun port =>
@@ -62,8 +63,10 @@ theorem bnd_decPeerAddr (rd : Rdr) : Bnd 1 0 4 (decPeerAddr rd) := by
   have h := Bnd.bind (bnd_rU8 1) fun tag =>
     Bnd.ite (tag = 0)
       ((Bnd.bind (bnd_rFixed rd 4) bnd_v4Tail).mono (Nat.le_refl 1) (Nat.le_refl _) (Nat.le_refl _))
-      ((Bnd.bind (Bnd.readN (bnd_rU16 1) 8) bnd_v6Tail).mono (Nat.le_refl 1) (Nat.le_refl _)
-        (by decide : max 0 0 ≤ max (min 4 MAX_FIXED_READ) 0))
+      (Bnd.ite (tag = 1)
+        ((Bnd.bind (Bnd.readN (bnd_rU16 1) 8) bnd_v6Tail).mono (Nat.le_refl 1) (Nat.le_refl _)
+          (by decide : max 0 0 ≤ max (min 4 MAX_FIXED_READ) 0))
+        ((Bnd.fail 1 .corrupted).mono (Nat.le_refl 1) (Nat.le_refl _) (Nat.zero_le _)))
   exact h
 
 /-- in the V4 branch the index panic is unreachable: `read_fixed_bytes(4)` returns 4 bytes -/
@@ -89,17 +92,20 @@ theorem noPanic_decPeerAddr (rd : Rdr) : NoPanic (decPeerAddr rd) := by
         | panic s k => have := noPanic_rU16 r1; simp [h2, Outcome.isPanic] at this
         | ok port r2 k => simp [hl, Outcome.addAlloc, Outcome.isPanic]
     · rw [if_neg ht]
-      cases h1 : readN rU16 8 r with
-      | err e m => rfl
-      | panic s m => have := NoPanic.readN noPanic_rU16 8 r; simp [h1, Outcome.isPanic] at this
-      | ok segs r1 m =>
-        have hl := readN_length 8 r segs r1 m h1
-        simp only [GV.Dec.bind, v6Tail, hl]
-        cases h2 : rU16 r1 with
-        | err e k => rfl
-        | panic s k => have := noPanic_rU16 r1; simp [h2, Outcome.isPanic] at this
-        | ok port r2 k =>
-          simp [Outcome.addAlloc, Outcome.isPanic]
+      by_cases ht1 : tag = 1
+      · rw [if_pos ht1]
+        cases h1 : readN rU16 8 r with
+        | err e m => rfl
+        | panic s m => have := NoPanic.readN noPanic_rU16 8 r; simp [h1, Outcome.isPanic] at this
+        | ok segs r1 m =>
+          have hl := readN_length 8 r segs r1 m h1
+          simp only [GV.Dec.bind, v6Tail, hl]
+          cases h2 : rU16 r1 with
+          | err e k => rfl
+          | panic s k => have := noPanic_rU16 r1; simp [h2, Outcome.isPanic] at this
+          | ok port r2 k =>
+            simp [Outcome.addAlloc, Outcome.isPanic]
+      · rw [if_neg ht1]; rfl
 
 theorem prog_decPeerAddr (rd : Rdr) : Prog (decPeerAddr rd) := by
   rw [decPeerAddr_eq]
@@ -109,7 +115,10 @@ theorem prog_decPeerAddr (rd : Rdr) : Prog (decPeerAddr rd) := by
   · rw [if_pos ht] at h
     exact (Bnd.bind (bnd_rFixed rd 4) bnd_v4Tail).rest_le h
   · rw [if_neg ht] at h
-    exact (Bnd.bind (Bnd.readN (bnd_rU16 1) 8) bnd_v6Tail).rest_le h
+    by_cases ht1 : tag = 1
+    · rw [if_pos ht1] at h
+      exact (Bnd.bind (Bnd.readN (bnd_rU16 1) 8) bnd_v6Tail).rest_le h
+    · rw [if_neg ht1] at h; simp at h
 
 /-! ### strings, `Hand`, `Shake` -/
 
